@@ -137,6 +137,9 @@ pub fn jobs(tier: Tier) -> Vec<Job> {
             v.push(pipeline_job("c05-coord", &c, &RunCfg::parallel(w), FOCUS_COORD, b, true));
         }
     }
+    for c in [blocks::nonce_chain(spec, 2), blocks::independent(spec, 2)] {
+        v.push(pipeline_job("c05-coord", &c, &RunCfg::parallel(1), FOCUS_COORD_MIN, if tier == Tier::Quick { 6 } else { 8 }, true));
+    }
     for c in &two {
         let run = RunCfg::parallel(2);
         v.push(pipeline_job("c05-live", c, &run, FINE, if tier == Tier::Quick { 2 } else { 3 }, true));
